@@ -22,7 +22,23 @@ def main():
         sys.exit(rc)
     job, tier, seed, out = sys.argv[2], sys.argv[3], int(sys.argv[4]), sys.argv[5]
     from harness import core
-    res = mod.run_job(job, tier, seed)
+    try:
+        res = mod.run_job(job, tier, seed)
+    except Exception as e:
+        # safety net below the per-case guards: an exception that escapes a whole job while the implementation is being evaluated
+        # (a library call that raises, or a NaN / inf that cannot be compared exactly) is reported as a violation with the traceback
+        # as the witness; mistakes of the harness itself (NameError, ImportError, SyntaxError in harness frames) and driver failures
+        # still crash the worker (CHECK-BROKEN)
+        tb = traceback.extract_tb(e.__traceback__)
+        where = tb[-1]
+        if isinstance(e, core.DriverError) or (isinstance(e, (NameError, ImportError, SyntaxError, AttributeError, KeyError, IndexError, AssertionError))
+                                               and '/harness/' in where.filename):
+            raise
+        res = core.Result(job)
+        res.violate(f'job `{job}` aborted by {type(e).__name__} while evaluating the implementation', dict(job=job, tier=tier, seed=seed),
+                    f'{type(e).__name__}: {e}'[:300], 'a value',
+                    dict(op='job-aborted', error=type(e).__name__, at=f'{where.filename.split("/")[-1]}:{where.name}',
+                         traceback=[f'{fr.filename.split("/")[-1]}:{fr.lineno}:{fr.name}' for fr in tb[-6:]]))
     with open(out, 'w') as f:
         json.dump(core.jsonable(res.to_json()), f)
 
